@@ -12,15 +12,16 @@ Token format (all integers, space separated):
   clauses := n (hkind h m lit1..litm)*     hkind 0: int head h; 1: bool head (h = 0/1)
 Requests:
   BREAK tc usememo graph ainfo keys(labeled) keys(evidence)  ->  ERR | OK graph keys keys   (tc: TRUE child short-cut also in the evidence pass)
+  BREAKEV tc usememo graph ainfo evm keys(labeled) keys(evidence) -> ERR | OK graph keys keys  (evm := n (node 0|1)*  = lookup_evidence of the source)
   VBREAK graphF graphD npairs (key key)*                  ->  0 | 1
   CLARK force graph weights ads names                     ->  atomcount clausecount clauses weights ads names
   VCLARK graph ads clauses                                ->  0 | 1
 """
 
 EXTRACT_V = """Require Extraction. Require ExtrOcamlBasic.
-From PL.C09 Require Import BoolGraph ClarkBase GenClark CyclesModel Validate.
+From PL.C09 Require Import BoolGraph ClarkBase GenClark CyclesModel CyclesEvModel Validate.
 Extraction Language OCaml.
-Extraction "oracle.ml" break_cycles_m validate_break validate_clark clarks_completion cnf_empty.
+Extraction "oracle.ml" break_cycles_m break_cycles_ev_m validate_break validate_clark clarks_completion cnf_empty.
 """
 
 DRIVER_ML = r"""
@@ -86,6 +87,13 @@ let handle line =
         (match break_cycles_m tc um g ai l e with
          | None -> Buffer.add_string b "ERR"
          | Some ((d, kl), ke) -> Buffer.add_string b "OK "; wlist wnode d; wlist wkey kl; wlist wkey ke)
+      | "BREAKEV" ->
+        let tc = rbool () in let um = rbool () in let g = rgraph () in let ai = rainfo () in
+        let evm = rlist (fun () -> let k = nat_of_int (next ()) in let v = rbool () in (k, v)) in
+        let l = rkeys () in let e = rkeys () in
+        (match break_cycles_ev_m tc um g ai evm l e with
+         | None -> Buffer.add_string b "ERR"
+         | Some ((d, kl), ke) -> Buffer.add_string b "OK "; wlist wnode d; wlist wkey kl; wlist wkey ke)
       | "VBREAK" ->
         let f = rgraph () in let d = rgraph () in
         let ps = rlist (fun () -> let a = rkey () in let c = rkey () in (a, c)) in
@@ -139,6 +147,10 @@ def enc_keys(ks):
 def enc_ainfo(groups, extras):
     return (enc_list(groups, lambda t: "%d %d %d" % (t[0], t[1], 1 if t[2] else 0)) + " "
             + enc_list(extras, lambda t: "%d %d" % t))
+
+
+def enc_evm(evm):
+    return enc_list(evm, lambda t: "%d %d" % (t[0], 1 if t[1] else 0))
 
 
 def enc_ads(ads):
